@@ -92,6 +92,9 @@ def lift (r : Option Int) : Except EvalErr Int :=
   | some v => .ok v
   | none => .error .panic
 
+/-- `Broadcast` in `eval`: a size of 1 takes the other size (including 0), else `max`. -/
+def bcastI (x y : Int) : Int := if x = 1 then y else if y = 1 then x else if x ≤ y then y else x
+
 def evalOp (A : Arith) : Op → Int → Int → Except EvalErr Int
   | .add, x, y => lift (A.norm (x + y))
   | .sub, x, y => lift (A.norm (x - y))
@@ -100,7 +103,7 @@ def evalOp (A : Arith) : Op → Int → Int → Except EvalErr Int
   | .divCeil, x, y => if y = 0 then .error .divisionByZero else lift (A.normDiv (divCeilI x y))
   | .max, x, y => .ok (if x ≤ y then y else x)
   | .min, x, y => .ok (if x ≤ y then x else y)
-  | .broadcast, x, y => .ok (if x ≤ y then y else x)
+  | .broadcast, x, y => .ok (bcastI x y)
 
 def eval (A : Arith) (σ : Env) : SymExpr → Except EvalErr Int
   | .value x => .ok x
